@@ -35,6 +35,11 @@ def run_actnorm(ck, drv, ops, dims, seed, mm):
     g = tgen(seed, "an", dims, tuple(ops))
     C = 3
     t = ActNorm(C)
+    if bool(t.initialized):
+        # every layer has its own life-cycle: what other instances of the process went through is not this one's history
+        ck.finding("ActNorm:fresh-instance-already-initialised",
+                   "a newly constructed ActNorm reports initialized = True (other instances were initialised earlier in this process)",
+                   {"search": "an", "layer": "ActNorm", "dims": dims, "ops": [], "seed": seed})
     batches = []
     impl_rows = []
     first_train_fwd = None
@@ -52,7 +57,12 @@ def run_actnorm(ck, drv, ops, dims, seed, mm):
             t.eval()
         elif op == RELOAD:
             new = ActNorm(C).double()
+            keep = (bool(t.initialized), t.log_scale.detach().clone())
             new.load_state_dict(copy.deepcopy(t.state_dict()))
+            if bool(t.initialized) != keep[0] or not torch.equal(t.log_scale.detach(), keep[1]):
+                ck.finding("ActNorm:saved-instance-changed-by-loading-into-another",
+                           "loading the state dict into a fresh instance changed the instance it was saved from",
+                           {"search": "an", "layer": "ActNorm", "dims": dims, "ops": [NAMES[o] for o in ops[:k + 1]], "seed": seed})
             t = new
         elif op in (FWD, INV):
             t = t.double()
